@@ -635,7 +635,9 @@ def _null_safe(f):
 
 _SKIP_RE = re.compile(r"no such function: \w+|near \"[^\"]*\": syntax error|wrong number of arguments to function \w+"
                       r"|DISTINCT is not supported for window functions|misuse of \w+ function \w+\(\)"
-                      r"|may not be used as a window function|unsupported frame specification", re.I)
+                      r"|may not be used as a window function|unsupported frame specification"
+                      # a limit of the STAND-IN engine's parser on the deeply nested text of a long pipeline (use_with=False)
+                      r"|parser stack overflow", re.I)
 
 
 def _pg_standin_conn():
@@ -1207,9 +1209,13 @@ class ExprGen:
         if op in ("mod", "remainder"):
             d = r.choice([2, 1])
             return self.mk(f"{_w(a, P_ATOM)}.{op}({d})", "float", a.null, P_ATOM, [a])
-        if re.search(r"\.(floor|ceil|sign|as_int64)\(\)\)*$", a.text) or re.search(r"( // | % |%/%|\.(mod|remainder)\()", a.text):
-            # integer-VALUED numerator: on a prepared SQLite connection floor()/ceil() return INTEGER, so `/` would be the
-            # integer division the property excludes ("integer / and %"): make the numerator a float on every backend
+        float_rooted = (a.text in self.st.ci and self.st.ci[a.text].kind == "float") or \
+            re.fullmatch(r"-?\d+\.\d+", a.text) is not None
+        if not float_rooted:
+            # SQLite types values dynamically: floor()/ceil() of a prepared connection return INTEGER, and fmin / coalesce /
+            # if_else / mapv hand an INTEGER operand through unchanged, so `/` on such a numerator would be the integer
+            # division the property excludes ("integer / and %").  Only a bare float column or float literal is certain
+            # to be REAL: every other numerator is multiplied by 1.5 (REAL on every backend, same value everywhere)
             a = self.mk(f"{_w(a, P_MUL)} * 1.5", "float", a.null, P_MUL, [a])
         if budget >= 6 and r.random() < 0.25:
             b = self.num("float", budget - a.size - 3, nonnull)
